@@ -92,11 +92,11 @@ ASSUMPTIONS = {
 TIERS = {
     "C19": {
         "quick": {"runs": 6000, "chunk": 100, "per_run_timeout": 60, "wall_cap": 300},
-        "thorough": {"runs": 120000, "chunk": 200, "per_run_timeout": 120, "wall_cap": 3000},
+        "thorough": {"runs": 120000, "chunk": 200, "per_run_timeout": 120, "wall_cap": 2400},
     },
     "C17": {
         "quick": {"runs": 5000, "chunk": 100, "per_run_timeout": 60, "wall_cap": 300},
-        "thorough": {"runs": 80000, "chunk": 200, "per_run_timeout": 300, "wall_cap": 3000},
+        "thorough": {"runs": 80000, "chunk": 200, "per_run_timeout": 300, "wall_cap": 2400},
     },
 }
 
